@@ -51,6 +51,7 @@ PROPS['C19_wip'] = dict(level='model_checking',
   ])
 
 def SEQ(name, src, fn, **kw):
+    kw.setdefault('opts', {}); kw['opts'].setdefault('feas', 1); kw['opts'].setdefault('feas_at', 12); kw['opts'].setdefault('max_visits', 400)
     return H(name, src, [], 0, setup=fn, final=None, **kw)
 PROPS['C05'] = dict(level='model_checking',
   bounds='sequential (T=1) execution of each listed expression shape; leaf outcomes (value/error/done) and 8-bit payloads symbolic; depth<=2, <=3 children',
@@ -65,3 +66,15 @@ PROPS['C12'] = dict(level='model_checking',
   outside='adaptors not in the catalogue (listed per harness); type-erased wrappers (see C18)',
   harnesses=[SEQ('q_' + n, 'C12_queries.cpp', 'h_q_' + n, desc='queries through ' + n) for n in
      ['then', 'upon', 'let_value', 'let_error', 'sequence', 'finally', 'materialize', 'when_all', 'stop_when', 'unstoppable', 'with_query_value', 'nested']])
+
+EV = ['when_all', 'stop_when', 'let_value', 'finally']
+PROPS['C04'] = dict(level='model_checking',
+  bounds='sequential event-order harnesses: <=3 manual leaves with symbolic outcomes, stop request at a symbolic position (before start / between any two completions / never); instruction-level races in T=2 harnesses',
+  outside='schedules interleaving at instruction granularity inside the event-order harnesses; take_until/stop_immediately (see C13); task (C10)',
+  harnesses=[SEQ('ev_%s_f%d' % (n, f), 'C04_events.cpp', 'h_ev_' + n, opts=dict(params=[f]), desc=n + ': symbolic order of leaf completions and stop request; flags(stop-before-start, leaf0 cancels inline, leaf1 cancels inline)=%d' % f) for n in EV for f in (0, 1, 3, 5, 7)] +
+            [SEQ('wa_inline_cancel', 'C04_events.cpp', 'h_wa_inline_cancel', desc='when_all: child fails inline while a pending sibling completes with done inside its stop callback')])
+PROPS['C01'] = dict(level='model_checking',
+  bounds='same harness family as C04 (exactly-once / nothing-before-start / never-started assertions), plus C05 sequential catalogue',
+  outside='I/O context senders, thread pools (see C06)',
+  harnesses=[SEQ('ev_%s_f%d' % (n, f), 'C04_events.cpp', 'h_ev_' + n, opts=dict(params=[f]), desc=n + ': exactly one completion under every event order; flags=%d' % f) for n in EV for f in (0, 1, 3, 5, 7)] +
+            [SEQ('never_started', 'C04_events.cpp', 'h_never_started', desc='connected but never started: no signal, no child started')])
